@@ -33,13 +33,20 @@ pub(crate) struct CustomTypeParser<'result> {
     /// When we encounter a `FrozenType(...)`, this field is set to true for the duration
     /// of parsing the inner type, and then set back to false.
     frozen_context: bool,
+    /// Current nesting depth of `do_parse` (the parser is recursive).
+    depth: usize,
 }
+
+/// Maximum nesting depth of a custom type name accepted from the wire; deeper
+/// names (a type name can be 64 KiB long) would overflow the stack.
+const MAX_CUSTOM_TYPE_NESTING_DEPTH: usize = 256;
 
 impl<'result> CustomTypeParser<'result> {
     fn new(input: &'result str) -> CustomTypeParser<'result> {
         Self {
             parser: ParserState::new(input),
             frozen_context: false,
+            depth: 0,
         }
     }
 
@@ -135,9 +142,17 @@ impl<'result> CustomTypeParser<'result> {
         self.accept_in_place("(")
             .map_err(|_| CustomTypeParseError::UnexpectedCharacter(self.get_first_char(), '('))?;
 
-        Ok(Either::Right(std::iter::from_fn(|| {
+        // Once an error has been yielded the iterator ends: the position in the input
+        // is meaningless then, and at the end of input it would otherwise yield the
+        // same error forever (callers count and collect the parameters).
+        let mut failed = false;
+        Ok(Either::Right(std::iter::from_fn(move || {
+            if failed {
+                return None;
+            }
             self.skip_blank_and_comma();
             if self.parser.is_at_eof() {
+                failed = true;
                 return Some(Err(CustomTypeParseError::UnexpectedEndOfInput));
             }
             let result = self.parser.accept(")");
@@ -146,7 +161,11 @@ impl<'result> CustomTypeParser<'result> {
                     self.parser = parser;
                     None
                 }
-                Err(_) => Some(self.do_parse()),
+                Err(_) => {
+                    let parameter = self.do_parse();
+                    failed = parameter.is_err();
+                    Some(parameter)
+                }
             }
         })))
     }
@@ -245,22 +264,13 @@ impl<'result> CustomTypeParser<'result> {
     fn get_n_type_parameters<const N: usize>(
         &mut self,
     ) -> Result<[Result<ColumnType<'result>, CustomTypeParseError>; N], CustomTypeParseError> {
-        let mut backup = Self {
-            parser: self.parser,
-            frozen_context: self.frozen_context,
-        };
-
-        // FIXME: Rewrite using std::iter::FromIterator::collect_array after it is stabilized.
-        // See rust-lang/rust#149266
-        itertools::Itertools::collect_array::<N>(self.get_type_parameters()?).ok_or_else(|| {
-            // unwrap(): get_type_parameters() already worked above, so it will work here as well.
-
-            let actual_parameter_count = backup.get_type_parameters().unwrap().count();
-
-            CustomTypeParseError::InvalidParameterCount {
-                actual: actual_parameter_count,
-                expected: N,
-            }
+        // The parameters are parsed exactly once: counting them by parsing the same
+        // input again on a mismatch doubles the work at every nesting level.
+        let parameters: Vec<_> = self.get_type_parameters()?.collect();
+        let actual_parameter_count = parameters.len();
+        <[_; N]>::try_from(parameters).map_err(|_| CustomTypeParseError::InvalidParameterCount {
+            actual: actual_parameter_count,
+            expected: N,
         })
     }
 
@@ -355,6 +365,18 @@ impl<'result> CustomTypeParser<'result> {
     }
 
     fn do_parse(&mut self) -> Result<ColumnType<'result>, CustomTypeParseError> {
+        if self.depth >= MAX_CUSTOM_TYPE_NESTING_DEPTH {
+            return Err(CustomTypeParseError::NestingTooDeep(
+                MAX_CUSTOM_TYPE_NESTING_DEPTH,
+            ));
+        }
+        self.depth += 1;
+        let result = self.do_parse_nested();
+        self.depth -= 1;
+        result
+    }
+
+    fn do_parse_nested(&mut self) -> Result<ColumnType<'result>, CustomTypeParseError> {
         self.skip_blank();
 
         let mut name = self.read_next_identifier();
